@@ -38,6 +38,8 @@ type splitOp struct {
 	// the run) and this input, then this (compared) call
 	Burst   int    `json:"burst,omitempty"`
 	AltText []rune `json:"alt_text,omitempty"`
+	// the caller overwrites its text and features slices after the (compared) call returned
+	MutateAfter bool `json:"mutate_after,omitempty"`
 }
 
 type splitCase struct {
@@ -179,6 +181,17 @@ func (m *splitMachine) apply(op splitOp) {
 	if d := firstDiff(got, want); d != "" {
 		m.fail("used Segmenter differs from a fresh one (%d vs %d runs): %s", len(got), len(want), d)
 	}
+	if op.MutateAfter {
+		// the returned runs share the text with the input (nothing is claimed about them any more);
+		// a segmenter that kept a reference shows in the next call
+		for i := range in.Text {
+			in.Text[i] = 0x5A
+		}
+		for i := range in.FontFeatures {
+			in.FontFeatures[i] = shaping.FontFeature{Tag: mustTag("zzzz"), Value: 7}
+		}
+		m.flags["caller_slices_mutated_after_call"] = true
+	}
 }
 
 func (m *splitMachine) finish() {
@@ -256,6 +269,7 @@ func drawSplitOp(t *rapid.T) splitOp {
 	}
 	op.Fonts = drawFontList(t, 3)
 	op.ScriptAware = rapid.IntRange(0, 3).Draw(t, "scriptAware") == 0
+	op.MutateAfter = rapid.IntRange(0, 3).Draw(t, "mutateAfter") == 0
 	return op
 }
 
